@@ -344,3 +344,73 @@ def type_instances(crate, fn):
             return [{}]
         outs = [dict(o, **{g: ty}) for o in outs for ty in sorted(tys)]
     return outs
+
+
+# ---------------------------------------------------------------- the lexer's private token type
+ATOM_KINDS = ("Null", "Nil", "Bool", "Char", "Number", "Symbol", "Keyword", "String", "Bytes")
+
+
+class TokenModel:
+    """parse::Token as the rules see it: a token is named by its kind - `Symbol`, `Number`, .. `ListOpen`, `VecOpen` -
+    whether the private enum has one variant per kind or wraps every atom in a single `Atom(Value)`-style variant
+    (the kind is then the Value's).  kind(tv) names a token value; payload(tv) is the atom's payload; make(kind, ..)
+    builds one to feed the parser with."""
+
+    def __init__(self, crate):
+        self.crate = crate
+        self.adt = crate.adts.get("parse::Token")
+        self.names = crate.variant_names("parse::Token") or []
+        self.wrapper = None
+        if self.adt:
+            for v in self.adt["variants"]:
+                if len(v["fields"]) == 1 and v["fields"][0]["ty"] in ("value::Value", "Value") and v["name"] not in ATOM_KINDS:
+                    self.wrapper = v
+        self.vnames = crate.variant_names("value::Value") or []
+        self.ok = bool(self.adt and self.names)
+
+    def _inner(self, tv, S=None, path=None):
+        if self.wrapper is not None and isinstance(tv, Adt) and tv.variant == self.wrapper["idx"] and tv.fields:
+            v = tv.fields[0]
+            if S is not None:
+                v = S._deref(v, path)
+            if isinstance(v, Adt) and v.adt == "value::Value":
+                return v
+            return "?"
+        return None
+
+    def kind(self, tv, S=None, path=None):
+        if not isinstance(tv, Adt) or tv.variant >= len(self.names):
+            return "?"
+        v = self._inner(tv, S, path)
+        if v == "?":
+            return "?atom"
+        if v is not None:
+            return v.vname or (self.vnames[v.variant] if v.variant < len(self.vnames) else "?")
+        return self.names[tv.variant]
+
+    def payload(self, tv, S=None, path=None):
+        v = self._inner(tv, S, path)
+        src = v if isinstance(v, Adt) else tv
+        if not isinstance(src, Adt) or not src.fields:
+            return None
+        p = src.fields[0]
+        return S._deref(p, path) if S is not None else p
+
+    def kinds(self):
+        """Every token kind of the lexer, atoms first."""
+        own = [n for n in self.names if not (self.wrapper and n == self.wrapper["name"])]
+        atoms = [k for k in ATOM_KINDS if k in own or self.wrapper is not None]
+        return atoms + [n for n in own if n not in ATOM_KINDS]
+
+    def make(self, kind, payload_of=None):
+        """A token value of that kind; payload_of(type string) supplies payloads (default: opaque)."""
+        from .sim import Opq
+        payload_of = payload_of or (lambda ty: Opq("payload"))
+        for v in self.adt["variants"]:
+            if v["name"] == kind:
+                return Adt("parse::Token", v["idx"], [payload_of(f["ty"]) for f in v["fields"]], kind)
+        if self.wrapper is not None and kind in self.vnames:
+            va = self.crate.adts["value::Value"]["variants"][self.vnames.index(kind)]
+            val = Adt("value::Value", va["idx"], [payload_of(f["ty"]) for f in va["fields"]], kind)
+            return Adt("parse::Token", self.wrapper["idx"], [val], self.wrapper["name"])
+        return None
